@@ -11,8 +11,8 @@ def build():
     p = subprocess.run(["cargo", "build", "--offline", "--features", "luau,lua52,lua53,lua54,luajit"], cwd="/repo", env=env, capture_output=True, text=True)
     return p.returncode == 0, p.stderr[-2000:]
 
-def run(args, cwd, stdin=None):
-    p = subprocess.run([BIN] + args, cwd=cwd, input=stdin, capture_output=True, timeout=120)
+def run(args, cwd, stdin=None, env=None):
+    p = subprocess.run([BIN] + args, cwd=cwd, input=stdin, capture_output=True, timeout=120, env=(dict(os.environ, **env) if env else None))
     return p.returncode, p.stdout, p.stderr
 
 def fmt_ref(text, cwd, extra=()):
@@ -129,6 +129,16 @@ def scenario(name):
             if rc != 0 or out != UNFORMATTED: return False, f"ignored stdin path not passed through unchanged: exit {rc}, {out[:40]!r}"
             rc, out, err = run(["--respect-ignores", "--stdin-filepath", "ignored/x.lua", "-"], d, stdin=bom)
             if rc != 0 or out != bom: return False, f"ignored stdin path (input with BOM) not passed through unchanged: exit {rc}, {out[:40]!r}"
+            # ignore patterns of every form the ignore file knows: a glob, a re-included (negated) path, a directory below another, an anchored path
+            w(".styluaignore", b"ignored/\n*.gen.lua\n!keep.gen.lua\n/top.lua\nvendor/**/x.lua\n")
+            rc0, ref0 = fmt_ref(UNFORMATTED, d)
+            for path, ignored in (("ignored/x.lua", True), ("a.gen.lua", True), ("sub/a.gen.lua", True), ("keep.gen.lua", False), ("sub/keep.gen.lua", False),
+                                  ("top.lua", True), ("sub/top.lua", False), ("vendor/a/b/x.lua", True), ("vendor/a/y.lua", False), ("plain.lua", False)):
+                rc, out, err = run(["--respect-ignores", "--stdin-filepath", path, "-"], d, stdin=UNFORMATTED)
+                if rc != 0 or out != (UNFORMATTED if ignored else ref0):
+                    return False, f"--respect-ignores --stdin-filepath {path} ({'ignored' if ignored else 'not ignored'} by .styluaignore): exit {rc}, stdout {out[:40]!r}"
+                rc, out, err = run(["--stdin-filepath", path, "-"], d, stdin=UNFORMATTED)
+                if rc != 0 or out != ref0: return False, f"--stdin-filepath {path} without --respect-ignores was not formatted"
             rc, out, err = run(["--check", "-"], d, stdin=UNFORMATTED)
             if rc != 1: return False, f"--check on unformatted stdin exited {rc}"
             after = sorted(x for x in os.listdir(d) if x != ".styluaignore")
@@ -203,6 +213,35 @@ def scenario(name):
             w("ec/x.lua", body)
             rc, out, err = run(["--no-editorconfig", "x.lua"], e)
             if indent_of(r("ec/x.lua")) != (1, b"\t"): return False, "--no-editorconfig did not fall back to the defaults"
+            # --search-parent-directories: after the walk to the root, $XDG_CONFIG_HOME, $XDG_CONFIG_HOME/stylua, $HOME/.config, $HOME/.config/stylua in
+            # that order; every subset of the four places holding a configuration (indent widths 4..7 tell them apart), XDG_CONFIG_HOME set, set to a
+            # directory that does not exist, and unset. (The scratch directory lies under /verif/.build: no stylua.toml above it.)
+            places = ["xdg", "xdg/stylua", "home/.config", "home/.config/stylua"]
+            d2 = tempfile.mkdtemp(prefix="vxcli-sp", dir=os.path.join(ROOT, ".build"))   # a sibling of d: d itself holds a stylua.toml
+            for mask in range(16):
+                for xdg_mode in ("set", "missing", "unset"):
+                    base = os.path.join(d2, f"sp{mask}{xdg_mode}"); os.makedirs(os.path.join(base, "work"))
+                    for k, pl in enumerate(places):
+                        os.makedirs(os.path.join(base, pl), exist_ok=True)
+                        if mask >> k & 1: open(os.path.join(base, pl, "stylua.toml" if k % 2 == 0 else ".stylua.toml"), "wb").write(b'indent_type = "Spaces"\nindent_width = %d\n' % (4 + k))
+                    open(os.path.join(base, "work", "f.lua"), "wb").write(body)
+                    env = {"HOME": os.path.join(base, "home"), "XDG_CONFIG_HOME": os.path.join(base, "xdg" if xdg_mode == "set" else "nowhere")}
+                    if xdg_mode == "unset": env = {"HOME": env["HOME"]}; 
+                    envp = dict(os.environ); envp.pop("XDG_CONFIG_HOME", None); envp.update(env)
+                    p = subprocess.run([BIN, "--no-editorconfig", "--search-parent-directories", "f.lua"], cwd=os.path.join(base, "work"), capture_output=True, timeout=120, env=envp)
+                    visible = [k for k in range(4) if mask >> k & 1 and (k >= 2 or xdg_mode == "set")]
+                    want = (4 + visible[0], b" ") if visible else (1, b"\t")
+                    got = indent_of(open(os.path.join(base, "work", "f.lua"), "rb").read())
+                    if p.returncode != 0 or got != want:
+                        shutil.rmtree(d2, ignore_errors=True)
+                        return False, f"--search-parent-directories with configurations in {[places[k] for k in range(4) if mask >> k & 1]} (XDG_CONFIG_HOME {xdg_mode}): exit {p.returncode}, indent {got}, expected {want}"
+                    # without the flag none of them is looked at
+                    open(os.path.join(base, "work", "f.lua"), "wb").write(body)
+                    p = subprocess.run([BIN, "--no-editorconfig", "f.lua"], cwd=os.path.join(base, "work"), capture_output=True, timeout=120, env=envp)
+                    if indent_of(open(os.path.join(base, "work", "f.lua"), "rb").read()) != (1, b"\t"):
+                        shutil.rmtree(d2, ignore_errors=True)
+                        return False, "a configuration under $XDG_CONFIG_HOME / $HOME was used without --search-parent-directories"
+            shutil.rmtree(d2, ignore_errors=True)
             return True, ""
         if name == "option_carriers":
             src = (b"local s = 'a' .. \"b\" .. 'it\\'s'\nlocal b = require('b')\nlocal a = require('a')\n"
